@@ -148,6 +148,70 @@ fn function_value() -> RV {
     instantiate(&Tpl::Map(vec![("a", Tpl::List(vec![Tpl::Leaf, Tpl::Leaf])), ("A", Tpl::Map(vec![("a", Tpl::Leaf), ("0", Tpl::Leaf), ("1", Tpl::Leaf)])), ("ab", Tpl::None), ("0", Tpl::Leaf)]), &mut n)
 }
 
+/// steps that only exist as text or only through the API
+fn special_steps_leg(acc: &mut Acc) {
+    let list = RV::List((0..3).map(|i| RV::Str(format!("item{i}"))).collect());
+    let digits = RV::map(&[("0", RV::str("zero")), ("1", RV::str("one")), ("007", RV::str("bond")), ("+1", RV::str("plus")), ("2024", RV::str("year")), ("a", RV::str("letter")), (" 1", RV::str("space"))]);
+    let facts = RV::map(&[("list", list.clone()), ("by_id", digits.clone())]).to_value();
+    // (a) a numeric step beyond the platform's index range addresses nothing: the text is not a
+    // path at all (it must not wrap around to a small position)
+    for d in ["18446744073709551616", "18446744073709551617", "18446744073709551618", "36893488147419103232", "340282366920938463463374607431768211456", "170141183460469231731687303715884105728"] {
+        for text in [format!("list.{d}"), format!("by_id.{d}"), format!("facts.list.{d}")] {
+            acc.count("executions", 1);
+            if let Ok(Ok(e)) = super::common::parse_expr(&text) {
+                let got = super::common::eval_expr(&e, &facts);
+                acc.violation(Violation {
+                    sig: format!("out-of-range-step/{}", got.class()),
+                    what: format!("path `{text}` names a position no list has, yet it is accepted and resolves to {}", got.show()),
+                    case: json!({"kind": "text-path", "text": text}),
+                    size: text.len(),
+                });
+            }
+            acc.outcome("out-of-range-step");
+        }
+    }
+    // (b) a field step built through the API addresses the key with exactly that spelling,
+    // whichever conversion produced the step (From<&str>, From<String>, Index::Map)
+    for key in ["0", "1", "007", "+1", "2024", "a", " 1", "7", ""] {
+        use reval::expr::Index;
+        let steps: [(&str, Index); 3] = [("From<&str>", key.into()), ("From<String>", key.to_string().into()), ("Index::Map", Index::Map(key.to_string()))];
+        for (how, step) in steps {
+            for (root, rootv) in [("by_id", &digits), ("list", &list)] {
+                acc.count("executions", 1);
+                let e = Expr::index(Expr::reff(root), step.clone());
+                let got = super::common::eval_expr(&e, &facts);
+                let want: RRes = apply_index_field(rootv, key);
+                if conforms(&want, &got) == Some(false) {
+                    acc.violation(Violation {
+                        sig: format!("api-field-step/{how}/{}", got.class()),
+                        what: format!("field step {key:?} built with {how} on `{root}`: observed {}, the key with that spelling gives {}", got.show(), show_exp(&want)),
+                        case: json!({"kind": "api-step", "key": key, "how": how, "root": root}),
+                        size: key.len(),
+                    });
+                }
+                acc.outcome("api-field-step");
+            }
+        }
+        // and a positional step built from a number stays positional
+        if let Ok(n) = key.parse::<usize>() {
+            for (root, rootv) in [("by_id", &digits), ("list", &list)] {
+                acc.count("executions", 1);
+                let e = Expr::index(Expr::reff(root), n.into());
+                let got = super::common::eval_expr(&e, &facts);
+                let want: RRes = apply_index_pos(rootv, n);
+                if conforms(&want, &got) == Some(false) {
+                    acc.violation(Violation {
+                        sig: format!("api-position-step/{}", got.class()),
+                        what: format!("positional step {n} built with From<usize> on `{root}`: observed {}, expected {}", got.show(), show_exp(&want)),
+                        case: json!({"kind": "api-step", "key": key, "how": "From<usize>", "root": root}),
+                        size: key.len(),
+                    });
+                }
+            }
+        }
+    }
+}
+
 pub fn run(tier: Tier) -> i32 {
     let mut rep = Report::new("C10", tier);
     let depth = tier.pick(3, 4);
@@ -200,6 +264,12 @@ pub fn run(tier: Tier) -> i32 {
         acc0.machinery(format!("only {n_parsed} of {} path texts parse to the built tree", ps.len()));
     }
     rep.absorb(acc0);
+
+    {
+        let mut acc = Acc::new();
+        special_steps_leg(&mut acc);
+        rep.absorb(acc);
+    }
 
     for (tname, syms) in &symtabs {
         // one ruleset holding every path as a rule
@@ -318,6 +388,19 @@ fn path_shape(p: &RE) -> String {
 }
 
 pub fn replay(case: &serde_json::Value) -> i32 {
+    if matches!(case.get("kind").and_then(|k| k.as_str()), Some("text-path") | Some("api-step")) {
+        let mut acc = Acc::new();
+        special_steps_leg(&mut acc);
+        return if acc.violations.is_empty() {
+            println!("verdict: holds");
+            0
+        } else {
+            for v in acc.violations.values() {
+                println!("verdict: VIOLATED — {}", v.what);
+            }
+            1
+        };
+    }
     let ps = paths(3);
     let pi = case.get("path").and_then(|p| p.as_u64()).unwrap_or(0) as usize;
     let input = case.get("input").and_then(RV::from_json).unwrap_or(RV::None);
